@@ -479,7 +479,10 @@ def sp_term(t, env, want):
 def sp_expr(e, env, want):
     e = e.strip()
     if want == "b":
-        return sp_term(e, env, "b")
+        try:
+            return sp_term(e, env, "b")
+        except TranslateError:
+            return "decide (%s)" % cond(e, env.strs, env.bools)
     terms = []
     for t in split_top(e, "+"):
         x = sp_term(t, env, "s")
@@ -705,11 +708,19 @@ def format_skeleton(su):
     if not ma:
         raise TranslateError("allocation of the heap buffer not found")
     alloc = ma.group(1) if ma.group(1) is not None else ma.group(2)
-    if alloc != dynsize and linear(alloc, r, None) != linear(dexpr, r, None):
-        raise TranslateError("the heap buffer is allocated with %r but snprintf is told %r" % (alloc, dynsize))
     dvv, _, K = linear(dexpr, r, None)
     if dvv != 1 or K < 0:
         raise TranslateError("heap buffer size is not 'r + K': %r" % dexpr)
+    # the allocation must be at least what snprintf is told (otherwise: fallback; the sanitizer reports the overflow)
+    if alloc != dynsize:
+        try:
+            av, _, ak = linear(alloc, dynsize, None) if re.fullmatch(r"[A-Za-z_]\w*", dynsize) else (0, 0, -1)
+            if (av, ak >= 0) != (1, True):
+                raise TranslateError("")
+        except TranslateError:
+            av, _, ak = linear(alloc, r, None)
+            if av != 1 or ak < K:
+                raise TranslateError("the heap buffer is allocated with %r but snprintf is told %r" % (alloc, dynsize))
     return a, b, K
 
 
